@@ -5,11 +5,11 @@ from ..texts import T
 
 H = 'c13_threads'
 NPAIRS = 44 * 44   # -3 <= i0, i1 <= 40
-LIFE = 10 * 4 * 130  # thread kinds x bodies x delay patterns (none, 127 masks over the 7 hand-over points, 2 random jitters)
+LIFE = 11 * 4 * 130  # thread kinds x bodies x delay patterns (none, 127 masks over the 7 hand-over points, 2 random jitters)
 
 plan('C13',
-     rule='parallel_for: every (i0, i1) with -3 <= i0, i1 <= 40 and every thread count 1..12 (one distinct item per triple), sampled larger ranges; lifecycles: 10 thread scenarios '
-          '(subclass, lambda, parallel_invoke 2/3/4, ThreadGroup, two lambdas, restart after join, restart after finished() was polled, a Thread started inside parallel_invoke that outlives it) x 4 task bodies (empty .. 2 ms) x 130 delay patterns forced at the library\'s hand-over points '
+     rule='parallel_for: every (i0, i1) with -3 <= i0, i1 <= 40 and every thread count 1..12 (one distinct item per triple), sampled larger ranges; lifecycles: 11 thread scenarios '
+          '(subclass, lambda, parallel_invoke 2/3/4, ThreadGroup, two lambdas, restart after join, restart after finished() was polled, a Thread started inside parallel_invoke that outlives it, a creator spinning on finished()) x 4 task bodies (empty .. 2 ms) x 130 delay patterns forced at the library\'s hand-over points '
           '(distinct = hash of the observed order of hook events); Semaphore and Condition producer/consumer histories with unique items and conservation at quiescence',
      jobs=[
          Job(H, 'pfor', 'plain', quick=NPAIRS, thorough=NPAIRS, shards=(6, 8)),
